@@ -1,3 +1,97 @@
-import PybtexModel.Model.Basic
+/-
+C11 — `format.name$` formats names as BibTeX does.
+
+Property theorems only.  The model of the code (`NameFormatParser`, `NamePart`, `join`,
+`tie_or_space`, `format_name`) is `Model/NameFormat.lean`; the reference grammar and formatting
+rule a reader has to agree with are in `Spec/NameFormat.lean`; helper lemmas in
+`Lemmas/NameFormat.lean`.
+-/
+import PybtexModel.Lemmas.NameFormat
+
 namespace Pybtex.Props
+open Pybtex Pybtex.NameFormat Spec Spec.NameFormat
+
+/-! ### malformed format strings -/
+
+/-- A malformed format string — unbalanced braces, a brace-level-1 letter run other than
+f/ff/l/ll/v/vv/j/jj (any case), a second letter run in the same part, or `_` at brace level 1
+(`Spec.wellformed`, read directly off the string) — is rejected with a syntax error, for every
+name; it is never formatted, and the error is neither an internal one nor the nesting-limit
+error of the string primitives. -/
+theorem C11_malformed_rejected (fmt : Str) (h : Spec.wellformed fmt = false) :
+    ∃ e, parseFormat fmt = .error e ∧ e ≠ .internal ∧ e ≠ .tooDeep ∧
+      ∀ name, formatName name fmt = .error e := by
+  have hw := okRest_wellformed fmt
+  rw [h] at hw
+  cases hp : parseFormat fmt with
+  | ok ps => rw [hp] at hw; cases hw
+  | error e =>
+    have hn := parseFormat_not_internal fmt
+    rw [hp] at hn
+    refine ⟨e, rfl, by simpa using hn.1, by simpa using hn.2, ?_⟩
+    intro name
+    simp [formatName, hp]
+
+theorem C11_malformed_rejected_nonvacuous :
+    Spec.wellformed "{ff~}{vv~}{lll}".toList = false ∧
+    Spec.wellformed "{ff~}}{ll}".toList = false ∧
+    Spec.wellformed "{f f}".toList = false ∧
+    Spec.wellformed "{f_}".toList = false ∧
+    formatName "Donald E. Knuth".toList "{ff~}{vv~}{lll}".toList = .error .illegalLetters := by
+  decide
+
+/-- Conversely a well-formed format string is accepted by the parser: the only error
+`format_name` can then raise is the brace-nesting limit of the string primitives. -/
+theorem C11_wellformed_accepted (fmt : Str) (h : Spec.wellformed fmt = true) :
+    (∃ ps, parseFormat fmt = .ok ps) ∧
+      ∀ name e, formatName name fmt = .error e → e = .tooDeep := by
+  have hw := okRest_wellformed fmt
+  rw [h] at hw
+  cases hp : parseFormat fmt with
+  | error e => rw [hp] at hw; cases hw
+  | ok ps =>
+    refine ⟨⟨ps, rfl⟩, ?_⟩
+    intro name e he
+    have hs := formatName_spec name fmt
+    rw [he] at hs
+    have hparse := parse_eq fmt
+    rw [hp] at hparse
+    obtain ⟨pieces, hpieces⟩ := toSpecPieces_partOk (parseFormat_partOk hp)
+    cases e with
+    | tooDeep => rfl
+    | internal => exact hs.elim
+    | unbalanced | prematureEOF | tokenRequired | illegalLetters =>
+      simp only [Spec.formatName, hparse, hpieces] at hs
+      split at hs <;> (try split at hs) <;> cases hs
+
+theorem C11_wellformed_accepted_nonvacuous :
+    Spec.wellformed "{ff~}{vv~}{ll}{, jj}".toList = true ∧
+    Spec.wellformed "{{abc}{def}FF{xyz}{#@${}{sdf}}} and {, 12 l.~~}".toList = true := by
+  decide
+
+/-- Totality: the model never ends in its `internal` outcome — the fuel of the two parser
+loops is never exhausted, `Person.get_part` never fails, `BibTeXNameFormatError` is
+unreachable behind `check_format_chars`, and `Person(name)` only fails with the nesting limit. -/
+theorem C11_total (name fmt : Str) :
+    parseFormat fmt ≠ .error .internal ∧ formatName name fmt ≠ .error .internal := by
+  refine ⟨(parseFormat_not_internal fmt).1, ?_⟩
+  intro h
+  have hs := formatName_spec name fmt
+  rw [h] at hs
+  exact hs
+
+/-! ### the reference rule -/
+
+/-- Main theorem: for every name and every format string, the model of `format_name` yields
+exactly the outcome of the reference rule `Spec.formatName` (grammar + formatting rule of
+`Spec/NameFormat.lean`): the same string; the nesting-limit error exactly when the rule is
+undefined for that reason; a syntax error exactly when the format is not in the grammar. -/
+theorem C11_matches_spec (name fmt : Str) :
+    match formatName name fmt with
+    | .ok (s, _) => Spec.formatName name fmt = .ok s
+    | .error .tooDeep => Spec.formatName name fmt = .tooDeep
+    | .error .internal => False
+    | .error _ => Spec.formatName name fmt = .malformed :=
+  formatName_spec name fmt
+
 end Pybtex.Props
